@@ -304,6 +304,21 @@ def float_quad3(rng, kind):
             return q
         elif kind == "skew":
             q = [[u(), u(), u()] for _ in range(4)]
+        elif kind == "near-shared":
+            # coplanar lines where a defining point of line 1 is *nearly* (relative 1e-7..1e-5) a defining point of
+            # line 0 without being equal to it: the coincidence shortcuts must not fire
+            ax = rng.randrange(3)
+            c = u()
+            q = []
+            for _j in range(4):
+                p = [u(), u(), u()]
+                p[ax] = c
+                q.append(p)
+            src, dst = rng.choice([(0, 2), (0, 3), (1, 2), (1, 3)])
+            rel = 10.0 ** rng.uniform(-7, -5)
+            q[dst] = [x * (1.0 + rel * rng.choice([-1, 1])) if j != ax else x for j, x in enumerate(q[src])]
+            if q[dst] == q[src]:
+                continue
         else:
             raise ValueError(kind)
         # conditioning (exact): not nearly parallel; skew margin
@@ -315,7 +330,7 @@ def float_quad3(rng, kind):
         gk = float(vdot(g, n))
         if kind == "skew" and abs(gk) < 1e-6 * ng * nn:
             continue
-        if kind == "planar":
+        if kind in ("planar", "near-shared"):
             # h = f x g must not vanish by accident (p0 on line 1): generic floats never do, but keep the guard
             if not any(vcross(f, g)):
                 continue
@@ -359,7 +374,7 @@ def gen(rng, tier):
         yield {"op": "isect3", "stream": "lattice", "pattern": pat, "pts": lattice_quad(rng, R, 3, pat),
                "via_line": i % 4 == 0}
     # --- 3-D float lines ------------------------------------------------------------------------------------
-    for kind, n in (("planar", 450), ("shared", 150), ("scaled", 350), ("skew", 150)):
+    for kind, n in (("planar", 450), ("shared", 150), ("scaled", 350), ("skew", 150), ("near-shared", 120)):
         for i in range(n * mult):
             yield {"op": "isect3", "stream": "float-" + kind, "pattern": kind, "pts": float_quad3(rng, kind),
                    "via_line": kind in ("planar", "scaled") and i % 3 == 0}
